@@ -233,8 +233,8 @@ fn binary_kernels(rng: &mut Rng, c: &mut Ctx, dt: &DataType, thorough: bool) {
     let b = small_domain_array(rng, dt, if b_scalar { 1 } else { n });
     let (Ok(ra), Ok(rb)) = (guarded(|| tok::rows(a.as_ref())), guarded(|| tok::rows(b.as_ref()))) else { return };
     let ty = tok::type_str(dt);
-    let ras = realise(rng, &a, 3);
-    let rbs = realise(rng, &b, 3);
+    let ras = realise(rng, &a, 4);
+    let rbs = realise(rng, &b, 4);
     for x in &ras {
         for y in &rbs {
             type K = fn(&dyn Datum, &dyn Datum) -> Result<ArrayRef, ArrowError>;
@@ -303,7 +303,7 @@ fn eq_probes(rng: &mut Rng, t: &mut Trace, dt: &DataType) {
     let a = small_domain_array(rng, dt, n);
     let Ok(rows) = guarded(|| tok::rows(a.as_ref())) else { return };
     let ty = tok::type_str(dt);
-    let rs = mutate::realisations(rng, &a, 5);
+    let rs = mutate::realisations(rng, &a, 7);
     for (n1, x) in &rs {
         let rx = guarded(|| tok::rows(x.as_ref())).unwrap_or_default();
         t.emit(json!({"op":"readback","via":format!("realise:{n1}"),"src":tok::strs(&rows),"got":tok::strs(&rx)}));
@@ -393,6 +393,12 @@ fn main() {
         for dt in &types {
             unary_kernels(&mut rng, &mut c, dt, args.thorough());
             binary_kernels(&mut rng, &mut c, dt, args.thorough());
+            // the boolean kernels work on bit-packed data at arbitrary offsets: more layouts
+            if let DataType::Boolean = dt {
+                for _ in 0..10 {
+                    binary_kernels(&mut rng, &mut c, dt, args.thorough());
+                }
+            }
         }
     }
     // order by key, route each key to one shard, keep at most 3 copies of an identical observation
